@@ -7,7 +7,7 @@ import (
 )
 
 func init() {
-	register("C18", "Decided: R-C18-1 every request the retry client issues (first transmissions, Ping, Disconnect) and every queued retry handle runs under a context obtained from requestContext(), whose cancel function is released on every path; R-C18-2 requestContext derives context.WithTimeout(ctx, ResponseTimeout) and its Err() wraps the cause in RequestTimeoutError; R-C18-4 a timed-out wait returns an error that carries its retry handle; R-C18-3 on every failure (first transmission and retransmission alike) the error is reported through OnError, the handle is kept and the connection is marked for closing, and the task loop closes it. Not decided: that the timer fires at the configured time; time spent blocked in Transport.Write.", checkC18)
+	register("C18", "Decided: R-C18-1 every request the retry client issues (first transmissions, Ping, Disconnect) and every queued retry handle runs under a context obtained from requestContext(), whose cancel function is released on every path; R-C18-2 requestContext derives context.WithTimeout(ctx, ResponseTimeout) and its Err() wraps the cause in RequestTimeoutError; R-C18-4 a timed-out wait returns an error that carries its retry handle; R-C18-3 on every failure (first transmission and retransmission alike) the error is reported through OnError, the handle is kept and the connection is marked for closing, and the task loop closes it; R-C18-6 the reconnect loop then establishes a new connection — it returns only behind its context, `disconnected` or a graceful end; R-C18-7 what is reported is identifiable as RequestTimeoutError (R-C19-6). Not decided: that the timer fires at the configured time; time spent blocked in Transport.Write.", checkC18)
 }
 
 func checkC18(r *Run) {
